@@ -39,9 +39,19 @@ theorem write_stores_prefix_image (v : Bool) (d : List Byte) (s : St) (h : Inv s
     cases v with
     | false =>
       simp only [Bool.false_eq_true, if_false]
-      by_cases hret : (addLoop d s).2.2 = .ret
-      · rw [if_pos hret]; exact ⟨r1, n, h1, h2⟩
-      · rw [if_neg hret]; exact ⟨r1, n, h1, h2⟩
+      cases hcons : s.console with
+      | true =>
+        simp only [if_true]
+        by_cases hret : (addLoop d s).2.2 = .ret
+        · rw [if_pos hret]; exact ⟨r1, n, h1, h2⟩
+        · rw [if_neg hret]
+          obtain ⟨p1, _, _⟩ := flushMsg_model r0
+          exact ⟨p1.histEq r1, n, h1, by rw [p1.histR]; exact h2⟩
+      | false =>
+        simp only [Bool.false_eq_true, if_false]
+        by_cases hret : (addLoop d s).2.2 = .ret
+        · rw [if_pos hret]; exact ⟨r1, n, h1, h2⟩
+        · rw [if_neg hret]; exact ⟨r1, n, h1, h2⟩
     | true =>
       simp only [if_true]
       by_cases h0 : (addLoop d s).1.len ≠ 0
@@ -65,7 +75,8 @@ theorem step_histEq {s : St} (op : Op) (h : Inv s) (he : HistEq s) : HistEq (ste
 
 /-- state form of `delivered_is_ordered_prefix_image`: after every run, the bytes accepted by send() followed by the ring
 contents are exactly the bytes ever stored, in the order they were stored - nothing duplicated, nothing reordered. -/
-theorem sent_then_ring_is_stored (script : List SendRes) (ops : List Op) : HistEq (run script ops).1 := by
+theorem sent_then_ring_is_stored (script : List SendRes) (ops : List Op) (console : Bool := false) :
+    HistEq (run script ops console).1 := by
   have key : ∀ (ops : List Op) (s : St) (j : J), GInv s → Rel s none j → HistEq s → HistEq (runFrom s ops).1 := by
     intro ops
     induction ops with
@@ -75,7 +86,7 @@ theorem sent_then_ring_is_stored (script : List SendRes) (ops : List Op) : HistE
       obtain ⟨a, b⟩ := step_spec op hgi hr
       simp only [runFrom]
       exact ih _ _ a b (step_histEq op hgi.inv he)
-  exact key ops (St.init script) {} (init_ginv script) (init_rel script) rfl
+  exact key ops (St.init script console) {} (init_ginv script console) (init_rel script console) rfl
 
 end NV.C14
 
@@ -137,9 +148,19 @@ theorem write_prefix_full (v : Bool) (d : List Byte) (s : St) (h : Inv s) (he : 
     cases v with
     | false =>
       simp only [Bool.false_eq_true, if_false]
-      by_cases hret : (addLoop d s).2.2 = .ret
-      · rw [if_pos hret]; exact h2
-      · rw [if_neg hret]; exact h2
+      cases hcons : s.console with
+      | true =>
+        simp only [if_true]
+        by_cases hret : (addLoop d s).2.2 = .ret
+        · rw [if_pos hret]; exact h2
+        · rw [if_neg hret]
+          obtain ⟨p1, _, _⟩ := flushMsg_model r0
+          rw [p1.histR]; exact h2
+      | false =>
+        simp only [Bool.false_eq_true, if_false]
+        by_cases hret : (addLoop d s).2.2 = .ret
+        · rw [if_pos hret]; exact h2
+        · rw [if_neg hret]; exact h2
     | true =>
       simp only [if_true]
       by_cases h0 : (addLoop d s).1.len ≠ 0
@@ -167,11 +188,11 @@ lengths `ns` - one for each text written, each the whole text unless the connect
 without room for the next item after the flush attempt (`TailLossOK`) - such that the bytes accepted by send() followed by
 the ring contents are exactly the concatenation, in write order, of the CR-LF images of those prefixes.  Nothing is
 duplicated, reordered or invented; only tails of individual messages can be missing. -/
-theorem delivered_is_ordered_prefix_image (script : List SendRes) (ops : List Op) :
+theorem delivered_is_ordered_prefix_image (script : List SendRes) (ops : List Op) (console : Bool := false) :
     ∃ ns : List Nat,
-      ForallTwo (fun p n => TailLossOK p.1 p.2 n) (preStates (St.init script) ops) ns ∧
-      (run script ops).1.sentR.reverse ++ contents (run script ops).1 =
-        (List.zipWith (fun p n => expand (p.2.take n)) (preStates (St.init script) ops) ns).flatten := by
+      ForallTwo (fun p n => TailLossOK p.1 p.2 n) (preStates (St.init script console) ops) ns ∧
+      (run script ops console).1.sentR.reverse ++ contents (run script ops console).1 =
+        (List.zipWith (fun p n => expand (p.2.take n)) (preStates (St.init script console) ops) ns).flatten := by
   have key : ∀ (ops : List Op) (s : St) (j : J), GInv s → Rel s none j → HistEq s →
       ∃ ns : List Nat, ForallTwo (fun p n => TailLossOK p.1 p.2 n) (preStates s ops) ns ∧
         (runFrom s ops).1.histR.reverse =
@@ -202,9 +223,9 @@ theorem delivered_is_ordered_prefix_image (script : List SendRes) (ops : List Op
         · simp only [runFrom]
           rw [e, hh]
           cases op <;> first | rfl | exact absurd rfl (hnw _ _)
-  obtain ⟨ns, f, e⟩ := key ops (St.init script) {} (init_ginv script) (init_rel script) rfl
+  obtain ⟨ns, f, e⟩ := key ops (St.init script console) {} (init_ginv script console) (init_rel script console) rfl
   refine ⟨ns, f, ?_⟩
-  have hs := sent_then_ring_is_stored script ops
+  have hs := sent_then_ring_is_stored script ops console
   unfold HistEq at hs
   rw [← hs]
   exact e
@@ -215,7 +236,7 @@ example (script : List SendRes) : ∃ ns : List Nat, ns.length = 2 := by
   exact ⟨ns, by have := f.length_eq; simpa [preStates] using this.symm⟩
 
 /-- the prefixes are taken from exactly the texts written, in order -/
-theorem delivered_texts (script : List SendRes) (ops : List Op) :
-    (preStates (St.init script) ops).map (·.2) = writesOf ops := preStates_texts _ _
+theorem delivered_texts (script : List SendRes) (ops : List Op) (console : Bool := false) :
+    (preStates (St.init script console) ops).map (·.2) = writesOf ops := preStates_texts _ _
 
 end NV.C14
